@@ -122,6 +122,7 @@ type Engine struct {
 	// results of ops, for differentials (C08/C18)
 	Results []string
 	RecordResults bool
+	AllowCommitFaults bool // C14: injected ledger failures are expected and retried
 	// limits (read at start)
 	MaxArrElem, MaxMapElem, MaxMapKey uint32
 }
